@@ -3,6 +3,7 @@ import NssVerif.Model.Header
 import NssVerif.Lemmas.Config
 import NssVerif.Lemmas.Header
 import NssVerif.Lemmas.HeaderAgree
+import NssVerif.Gen.Src.C16
 
 /-!
 # C16 — a results file is self-describing and loss-free
@@ -117,5 +118,86 @@ example : Lemmas.HeaderAgree.Runnable (Cfg.default : Cfg ℝ) where
           month := by intro m v h; simp [Cfg.default, Simulation.default] at h }
   optical := rfl
   radio := rfl
+
+
+/-! ### source tie: `config_from_fits` and `results_table.init` as regenerated from the Python source
+(`Gen/Src/C16.lean`, harness/cfgtrans.py)
+
+`Gen.Src.C16.variants` is the reader's key table, rebuilt on every run from the statements of `config_from_fits` in the working
+tree: per spectrum tag the reader branches on (and one variant for every other tag), with the `None`-ionosphere keyword absent
+or present, the fields of the dict it hands to `NssConfig(**c)` and the header keyword each is read from.
+`Gen.Src.C16.headerOf` is assembled from the literal keys and the `flatten_dict(config.model_dump(), "HIERARCH Config", sep=" ")`
+call recognised in `results_table.init`.  The theorems below are about THOSE definitions. -/
+
+open Model.Schema in
+/-- **reconstructed fields agree, on the level of keywords**: in every variant, every field of the dict the reader builds is
+read from the keyword under which the header writer stores *that same field*: `"Config " ++` the field's path joined by
+blanks (`renderKey`), i.e. the flattened path of the field in `model_dump()` -/
+theorem src_reader_keys_match_writer :
+    ∀ v ∈ Gen.Src.C16.variants, ∀ r ∈ v.rows, r.keyword = renderKey Gen.Src.C16.storedPrefix r.path := by
+  decide +kernel
+
+/-- … hence, for every configuration, whatever leaf `model_dump()` has at a row's path is in the header (as written by the
+`init` read from the source) under exactly the keyword the reader looks up for that row -/
+theorem src_reader_finds_written_value (now : String) (c : Cfg ℝ) (v : Model.Schema.Variant) (hv : v ∈ Gen.Src.C16.variants)
+    (r : Model.Schema.Row) (hr : r ∈ v.rows) (x : Val ℝ) (h : leafAt r.path (dump c) = some x) (hl : isLeaf x = true) :
+    (r.keyword, x) ∈ Gen.Src.C16.headerOf now c := by
+  rw [src_reader_keys_match_writer v hv r hr]
+  have hm := Lemmas.Header.flatten_complete r.path (dump c) x h hl
+  unfold Gen.Src.C16.headerOf
+  simp only [dump] at hm ⊢
+  simp only [flatten] at hm
+  simp only [flattenDict, List.mem_append, List.mem_map]
+  exact Or.inr ⟨(r.path, x), hm, rfl⟩
+
+/-- no two rows of a variant read the same keyword, and no two fill the same field -/
+theorem src_reader_keys_distinct :
+    ∀ v ∈ Gen.Src.C16.variants, (v.rows.map (·.keyword)).Nodup ∧ (v.rows.map (·.path)).Nodup := by
+  decide +kernel
+
+/-- the header as written by the `init` read from the source is the model's header: the literal key `simTime` (upper-cased by
+astropy), then the dump flattened under the prefix with the word `HIERARCH` removed, separator one blank -/
+theorem src_header_eq_model {α : Type} [Scalar α] (now : String) (c : Cfg α) :
+    Gen.Src.C16.headerOf now c = headerOf now c := rfl
+
+theorem src_writer_literals :
+    Gen.Src.C16.writerPrefix = "HIERARCH " ++ Gen.Src.C16.storedPrefix ∧ Gen.Src.C16.storedPrefix = "Config" ∧
+    Gen.Src.C16.writerSep = " " ∧ Gen.Src.C16.writerLiteralKeys = ["simTime"] ∧ Gen.Src.C16.hduIndex = 1 := by
+  decide +kernel
+
+/-- the key table read from the source IS the model's reader: run on a header that holds, under every keyword of a variant,
+the keyword itself (and the variant's tag under the discriminator keyword), the model's `treeFromHeader` succeeds and builds
+exactly the variant's fields, in the variant's order, each holding the keyword of its row (`null` for the disabled
+ionosphere).  The variants are the two spectrum tags and any other tag, each with the ionosphere stored or `None`. -/
+theorem src_reader_eq_model :
+    ∀ v ∈ Gen.Src.C16.variants,
+      Model.Schema.readerProbe Gen.Src.C16.discriminator v = some (Model.Schema.probeExpected Gen.Src.C16.discriminator v) := by
+  decide +kernel
+
+/-- the variants read from the source are the six cases of the model's reader, and the per-tag key lists are those of the two
+spectrum classes -/
+theorem src_reader_variants :
+    Gen.Src.C16.variants.map (fun v => (v.tag, v.ionosphereNone)) =
+      [("monospectrum", false), ("monospectrum", true), ("powerspectrum", false), ("powerspectrum", true),
+       ("<any other>", false), ("<any other>", true)] ∧
+    Gen.Src.C16.unionKeys = [("monospectrum", ["log_nu_energy"]), ("powerspectrum", ["index", "lower_bound", "upper_bound"])] ∧
+    Gen.Src.C16.discriminator = "Config simulation spectrum id" ∧
+    Gen.Src.C16.noneKeyword = "Config simulation ionosphere" := by
+  decide +kernel
+
+/-- the rows read from the source cover exactly the model's reconstructible fields: every row of every variant fills one of
+them, and each of them is filled by a row of some variant -/
+theorem src_rows_cover_reconstructible :
+    (∀ v ∈ Gen.Src.C16.variants, ∀ r ∈ v.rows, r.path ∈ Model.Schema.reconstructiblePaths) ∧
+    (∀ p ∈ Model.Schema.reconstructiblePaths, ∃ v ∈ Gen.Src.C16.variants, ∃ r ∈ v.rows, r.path = p) := by
+  decide +kernel
+
+/-- the reconstructible paths that are leaves of the dump are where `dump (reconstructible c)` and `dump c` agree — checked on
+the default configuration with every parameter of the non-reconstructed kind changed: non-vacuity of the list above -/
+example : (Model.Schema.reconstructiblePaths.filter fun p => p ≠ ["simulation", "ionosphere"]).all
+    (fun p => (Model.Schema.shapes (dump (Cfg.default : Cfg ℝ))).any (fun q => q.1 = p) ||
+              p ∈ [["simulation", "spectrum", "index"], ["simulation", "spectrum", "lower_bound"],
+                   ["simulation", "spectrum", "upper_bound"]]) = true := by
+  decide +kernel
 
 end C16
